@@ -210,7 +210,7 @@ def gen_random(ck, n):
                 beh.append({"a": "part", "arg": {"pct": rng.choice([100, 100, 50, 30, 10, 1]) if chunky else 100}})
                 if rng.random() < (0.5 if chunky else 0.15):
                     beh.append({"a": "join", "arg": {"x": 0}})
-        if rng.random() < 0.3:
+        if rng.random() < 0.3 and not is_cxx(beh):
             b = rng.choice([1, 3, 7, 65536, 65537, 99991, 1 << 20, (1 << 22) + 1])
             beh.append({"a": "encode", "arg": {"a": rng.choice([0, 1, 2, b // 65536, b // 65536 + 1, b // 2, b - 1, b, rng.randrange(b + 1)]), "b": b}})
         behs.append(beh)
@@ -303,6 +303,9 @@ def run(tier):
         if gen.error or gen.violation:
             raise vlib.MachineryError("behaviour export %s failed: %s %s" % (c, gen.error, gen.violation))
         behs = drop_prefixes(vlib.parse_behaviours(gen.out))
+        if lim != 65535:
+            # the C++ classes have no seam for a scaled limit: their scaled design is model-checked only
+            behs = [b for b in behs if not is_cxx(b)]
         recs = run_split(exes, behs)
         mms = vlib.compare(behs, recs)
         replayed += len(behs)
